@@ -105,6 +105,11 @@ func c01Gen(archs []wsp.Arch) func(AState, int) []AOp {
 			}
 		}
 		ops = append(ops, denseBatch(archs[0], 0))
+		if d > 0 {
+			// an explicit "no value" written over the oldest and the newest interval of the finest archive (what copying
+			// NaN does): the slot then holds (interval, NaN); on a densely written ring the oldest one is the ring's base
+			ops = append(ops, AOp{Kind: "WB", Arch: 0, Ages: []int64{archs[0].Ret() - 1, 0}, Vals: []float64{NaNVal, NaNVal}})
+		}
 		for _, d := range dedupAges([]int64{1, int64(archs[len(archs)-1].Step), archs[0].Ret(), rmax + 1}, 1, 1<<40) {
 			ops = append(ops, AOp{Kind: "ADV", D: d})
 		}
